@@ -15,6 +15,17 @@ pub struct Big {
     slots: RefCell<Vec<Rc<Big>>>,
 }
 
+impl Clone for Big {
+    fn clone(&self) -> Big {
+        // make_mut is only ever called here on a handle that is the sole strong handle
+        unreachable!("the value of a uniquely held object was cloned")
+    }
+}
+
+/// How the last outside handle is given up: 0 drop, 1 try_unwrap, 2 make_mut with a Weak
+/// outstanding (the value is moved to a new box), then drop.
+pub static GIVE: AtomicUsize = AtomicUsize::new(0);
+
 /// C16 on big groups: from destructor number DEAD_AT on, every destructor clones (1) or
 /// drops (2) the handles its value stores; they all name members of the dying group.
 pub static DEAD_ACT: AtomicUsize = AtomicUsize::new(0);
@@ -116,7 +127,20 @@ pub fn run(shape: &str, n: usize, chords: usize, selfsame_every: usize, seed: u6
     let release = |keep: Rc<Big>| {
         let before = held_weak.as_ref().map_or(0, |w| w.strong_count());
         let held = held_weak.as_ref().and_then(|w| w.upgrade());
-        drop(keep);
+        match GIVE.load(Relaxed) {
+            1 => match Rc::try_unwrap(keep) {
+                Ok(v) => drop(v),
+                Err(h) => drop(h),
+            },
+            2 => {
+                let mut keep = keep;
+                let w = Rc::downgrade(&keep);
+                let _ = Rc::make_mut(&mut keep);
+                drop(w);
+                drop(keep);
+            }
+            _ => drop(keep),
+        }
         if let Some(x) = held {
             // the held member gained our handle; member 0 lost the main handle
             let expect = if x.id == 0 { before } else { before + 1 };
@@ -129,6 +153,24 @@ pub fn run(shape: &str, n: usize, chords: usize, selfsame_every: usize, seed: u6
     let at = |objs: &Vec<Option<Rc<Big>>>, i: usize| -> Rc<Big> { Rc::clone(objs[i].as_ref().unwrap()) };
     // the mutual star has no chain: the hub holds every peer's original handle and every
     // peer adopts the hub back, so each peer has exactly one adopter
+    // a hub that owns (and has adopted) every other object and is held by one handle only:
+    // the shape whose sole handle can be given up through try_unwrap / make_mut
+    if shape == "hubonly" {
+        for j in 1..n {
+            let t = objs[j].take().unwrap();
+            link(objs[0].as_ref().unwrap(), t, false);
+            edges += 1;
+        }
+        let keep = objs[0].take().unwrap();
+        drop(objs);
+        let build_us = t0.elapsed().as_micros();
+        verif::reset();
+        let t1 = std::time::Instant::now();
+        release(keep);
+        let drop_us = t1.elapsed().as_micros();
+        let c = verif::counters();
+        return ScaleOut { n, edges, destroyed: DESTROYED.load(Relaxed), double: DOUBLE.load(Relaxed), trace_calls: c[0], pops: c[1], visits: c[2], scanned: c[3], build_us, drop_us, count_errors: 0 };
+    }
     if shape == "mstar" {
         for j in 1..n {
             let t = at(&objs, 0);
